@@ -75,9 +75,13 @@ class CFile:
                 name, val = m.group(1), m.group(2).strip()
                 if "(" in name:
                     continue
-                sm = re.fullmatch(r'"(.*)"', val)
+                sm = re.fullmatch(r'(?:"(?:[^"\\]|\\.)*"\s*)+', val)
                 if sm:
-                    d[name] = sm.group(1)
+                    parts = re.findall(r'"((?:[^"\\]|\\.)*)"', val)
+                    try:
+                        d[name] = "".join(bytes(p, "latin-1").decode("unicode_escape") for p in parts)
+                    except Exception:
+                        d[name] = "".join(parts)
                     continue
                 v = _c_int(val, d)
                 if v is not None:
